@@ -7,5 +7,5 @@ Extraction Language OCaml.
 Extraction "model.ml"
   filter_escape filter_addslashes filter_safe filter_escapejs filter_urlencode
   filter_iriencode filter_striptags filter_removetags
-  lex api_render_string api_render_file api_compile_only mkWorld mkLoader apply_filter
+  lex api_render_string api_render_file api_render_file_log s_run s_init api_compile_only mkWorld mkLoader apply_filter
   parse_expression parse_fuel itoa format6 fsloader_abs path_clean.
